@@ -8,10 +8,12 @@ namespace P9.Session
 open P9
 
 def hTversion (m : Msg) : M Reply := do
-  let (ms, v) := Version.tversion (m.int 0) (m.str 1)
-  if ms != 0 then
+  let ms := (Version.tversion (m.int 0) (m.str 1)).1
+  let v := (Version.tversion (m.int 0) (m.str 1)).2
+  (if ms != 0 then do
     let c ← getConn
     modS fun s => { s with msize := (c, ms) :: s.msize.filter (·.1 != c) }
+   else pure () : M Unit)
   return rmsg 101 [.atom (.int ms), .atom (.str v)]
 
 /-- the handler for a request type; types without a handler (R-messages, Tauth aside) get ENOSYS -/
